@@ -26,6 +26,7 @@ import (
 func boot() {
 	hxnode.BootServices("dev")
 	core.VerifC06Init()
+	initReward()
 	common.SetBlockHeight(100)
 }
 
@@ -156,6 +157,9 @@ func runSessions(g *Gen, sessions int, stats map[string]interface{}) {
 			if g.r.Chance(1, 6) {
 				g.refund()
 			}
+			if g.r.Chance(1, 5) {
+				g.after()
+			}
 			blocks++
 			txs += k
 			for _, c := range res.Statuses {
@@ -269,6 +273,9 @@ func replayOne(w *World, line string) {
 			w.Code(parseAddr(t[1]), parseScript(t[2]))
 		case "amt":
 			w.Amt(unhexStr(t[1]))
+		case "after":
+			h, _ := strconv.ParseUint(t[1], 10, 64)
+			w.After(h, []byte{0xca, 0x57})
 		case "refund":
 			var l [][2]interface{}
 			for i := 2; i+1 < len(t); i += 2 {
